@@ -471,6 +471,22 @@ fn check_c20(ops: &[Op], info: &PlanInfo, obs: &Obs, out: &mut Vec<Viol>) {
             }
         }
     }
+    if let Some((t1, t2, shape)) = &obs.debug_stepwise {
+        for (which, once, stepwise) in [("{:?}", &obs.debug, t1), ("{:#?}", &obs.debug_pretty, t2)] {
+            if let (Some(Ok(a)), Ok(b)) = (once, stepwise) {
+                if a != b {
+                    out.push(v("C20", "print-depends-on-earlier-prints", format!("a builder that was also printed after every registration prints ({})\n{}but the same registrations printed once give\n{}", which, b, a)));
+                }
+            } else if let (Some(Ok(_)), Err(p)) = (once, stepwise) {
+                out.push(v("C20", "print-panics", format!("printing ({}) a builder that was printed after every registration panicked: {}", which, p)));
+            }
+        }
+        if let (Some(s), true) = (shape, obs.build_panic.is_none()) {
+            if *s != obs.shape && !obs.shape.is_empty() {
+                out.push(v("C20", "print-changes-the-plan", format!("a builder that was printed after every registration builds shape {:?}, printed once it builds {:?}", s, obs.shape)));
+            }
+        }
+    }
     let _ = ops;
 }
 
